@@ -32,8 +32,8 @@ ASSUMPTIONS = [
     "convert() of a string with a decimal fraction returns a double: the compared value is that double snapped "
     "to the decimal grid 10^-k of the input's longest fraction (k <= 6, value < 10^8) when it lies within 4 ulp "
     "of a grid point, otherwise its exact rational; strings without fraction are compared exactly "
-    "(at most 15 digits per number); a mutated string whose fraction is finer than 64 ulp of its value is checked "
-    "by the oracle only",
+    "(at most 15 digits per number); a mutated string whose fraction is finer than 64 ulp of its value, or whose "
+    "integer value reaches 2^53, is checked by the oracle only",
     "the reason of a ValueError is classified by key words of its message (fraction / calendar / at least one / "
     "other = syntax); the wording itself is not compared",
 ]
@@ -292,7 +292,7 @@ def _sep(rng):
 
 def scenarios(rng, tier):
     big = tier != 'quick'
-    scale = 30 if big else 4
+    scale = 45 if big else 4
     ops = []
     # fixed seeds: the literal examples of the documentation and the property text
     fixed = ['2m', '20h15m10', '2d 12h', '1.25h', '1d2h3m4.5s', 'P1DT2H3M4.5S', '72H', '', 'P1Y', 'PT1M', 'P1M',
@@ -405,7 +405,9 @@ def _num_reply(x, k=0):
 
 def _comparable(x, k):
     """can the double x be compared exactly with a decimal of k places? (grid well above the float resolution)"""
-    return k == 0 or Fraction(1, 10 ** k) > 64 * Fraction(math.ulp(x))
+    if k == 0:
+        return abs(x) < 2 ** 53        # integers are exact below 2^53
+    return Fraction(1, 10 ** k) > 64 * Fraction(math.ulp(x))
 
 
 def _call(fn, *args):
